@@ -69,6 +69,7 @@ pub fn run_c04(ctx: &Ctx, st: &mut Local) {
                         v[i] = x;
                     }
                     normalise(&mut v);
+                    ctx.begin(eng, idx, limit_for(d.len()));
                     let (plain, corr, consumed) = match caught(|| ctx.refb.corrections_with_params(d, &v)) {
                         Ok(Ok(x)) => x,
                         _ => {
@@ -204,6 +205,8 @@ fn apply(base: &[u32], alt: &[(usize, u32)]) -> Vec<u32> {
 }
 
 fn c08_one(ctx: &Ctx, st: &mut Local, eng: &str, idx: u64, d: &[u8], v: &[u32], counts: &mut [u64; 3]) {
+    // one case covers thousands of vectors: the time limit applies to each run
+    ctx.begin(eng, idx, limit_for(d.len()));
     match caught(|| ctx.cur.roundtrip_with_params(d, v)) {
         Err(p) => st.violation(ctx.viol(eng, idx, "panic", Some(p.loc.clone()), format!("params {:?}: {}", v, p.msg), d)),
         Ok(Err(e)) => {
